@@ -25,13 +25,13 @@ def label (sh : Sh) (pc : Pc) (e : Env) (api : String) : Label :=
   | .w3pop _, _ => { obj := "sync.semphore.to_wake", inst := semI, op := "q.pop",
                      res := match sh.q with | [] => .num (-1) | w :: _ => .id "blk" w }
   | .wake1 w _, _ => { kind := "blk", obj := "tp", inst := bl w, op := "unpark" }
-  | .wake2 w _, _ => { obj := "sync.blocking.unparked", inst := bl w, op := "store", a1 := .num 1, ord := "Release" }
-  | .wake3 w _, _ => { obj := "sync.blocking.release", inst := bl w, op := "swap", a1 := .num 0, res := .num (b2i (sh.release w)), ord := "Acquire" }
+  | .wake2 w _, _ => { obj := "sync.blocking.unparked", inst := bl w, op := "store", a1 := .num 1, ord := "SeqCst" }
+  | .wake3 w _, _ => { obj := "sync.blocking.release", inst := bl w, op := "swap", a1 := .num 0, res := .num (b2i (sh.release w)), ord := "SeqCst" }
   | .w5park b, .abort => { kind := "blk", obj := "tp", inst := bl b, op := "park_return", res := .num 0 }
   | .w5park b, _ => { kind := "blk", obj := "tp", inst := bl b, op := "park_return", res := .num 1 }
-  | .w6load b, _ | .w8load b, _ => { obj := "sync.blocking.unparked", inst := bl b, op := "load", res := .num (b2i (sh.unparked b)), ord := "Acquire" }
-  | .w7set b, _ => { obj := "sync.blocking.release", inst := bl b, op := "store", a1 := .num 1, ord := "Release" }
-  | .w9swap b, _ => { obj := "sync.blocking.release", inst := bl b, op := "swap", a1 := .num 0, res := .num (b2i (sh.release b)), ord := "Acquire" }
+  | .w6load b, _ | .w8load b, _ => { obj := "sync.blocking.unparked", inst := bl b, op := "load", res := .num (b2i (sh.unparked b)), ord := "SeqCst" }
+  | .w7set b, _ => { obj := "sync.blocking.release", inst := bl b, op := "store", a1 := .num 1, ord := "SeqCst" }
+  | .w9swap b, _ => { obj := "sync.blocking.release", inst := bl b, op := "swap", a1 := .num 0, res := .num (b2i (sh.release b)), ord := "SeqCst" }
   | .p0fadd _, _ => { obj := "sync.semphore.cnt", inst := semI, op := "fetch_add", a1 := .num 1, res := .num sh.cnt, ord := "SeqCst" }
 
 def pcName : Pc → String
